@@ -979,7 +979,16 @@ def cases_sweep(tier):
             out.append({'part': 'sweep', 'rings': 2, 'model': model, 'n_asm': 2, 'layout': 'cycle',
                         'shape': 1, 'tabset': 'gen', 'gap': 'none', 'idx': idx})
             idx += 1
+            out.append({'part': 'sweep', 'rings': 2, 'model': model, 'n_asm': 3, 'layout': 'wide',
+                        'shape': 2, 'tabset': 'gen', 'gap': 'none', 'idx': idx})
+            idx += 1
     else:
+        for model in ('fuel', 'pin'):
+            for shape in range(5):
+                for gap in ('none', 'flow'):
+                    out.append({'part': 'sweep', 'rings': 2, 'model': model, 'n_asm': 3, 'layout': 'wide',
+                                'shape': shape, 'tabset': 'gen', 'gap': gap, 'idx': idx})
+                    idx += 1
         for rings in (2, 3):
             for model in ('fuel', 'pin'):
                 for shape in range(5):
@@ -1060,6 +1069,11 @@ def _sweep_scenario(c):
         # type A (defined first) on ids 1 and 2, type B on id 0: collecting the rows type by type and
         # sorting them by assembly id is then a 3-cycle (not an involution)
         pos = [(2, 1), (2, 2)]
+        bpos = (1, 1)
+    elif c.get('layout') == 'wide':
+        # a 19-position core, mostly vacant: type A on the assembly ids 2, 9 and 16, type B on id 0 (ids that are not
+        # small consecutive integers: any container that orders them by something else than their value shows)
+        pos = [(2, 2), (3, 3), (3, 10)]
         bpos = (1, 1)
     for j, (rg, ps) in enumerate(pos):
         assign.append(['A', rg, ps, {'flowrate': round(flow0 * (1.0 - 0.15 * j), 6)}])
